@@ -1,4 +1,5 @@
 import Decstr.Proofs.Basic
+import Decstr.Proofs.ParseLemmas
 import Mathlib.Tactic.Linarith
 import Mathlib.Tactic.Positivity
 import Mathlib.Tactic.Ring
@@ -23,13 +24,13 @@ theorem ofDigits_foldl (ds : List Nat) (a : Nat) :
     rw [ih, ih (10 * 0 + d)]
     ring
 
-theorem ofDigits_cons (d : Nat) (ds : List Nat) : ofDigits (d :: ds) = d * 10 ^ ds.length + ofDigits ds := by
+theorem ti_ofDigits_cons (d : Nat) (ds : List Nat) : ofDigits (d :: ds) = d * 10 ^ ds.length + ofDigits ds := by
   simp only [ofDigits, List.foldl_cons]
   rw [ofDigits_foldl]; simp [ofDigits]
 
-theorem valOf_nil : valOf [] = 0 := rfl
-theorem valOf_cons (d : Nat) (ds : List Nat) : valOf (d :: ds) = (d - 48) * 10 ^ ds.length + valOf ds := by
-  simp [valOf, digitVals, ofDigits_cons]
+theorem ti_valOf_nil : valOf [] = 0 := rfl
+theorem ti_valOf_cons (d : Nat) (ds : List Nat) : valOf (d :: ds) = (d - 48) * 10 ^ ds.length + valOf ds := by
+  simp [valOf, digitVals, ti_ofDigits_cons]
 
 theorem IntTy.min_le_zero (I : IntTy) : I.min ≤ 0 := by
   unfold IntTy.min; split <;> simp
@@ -49,14 +50,14 @@ def finalVal (neg : Bool) (acc : Int) (ds : List Nat) : Int :=
 theorem finalVal_cons (neg : Bool) (acc : Int) (d : Nat) (ds : List Nat) :
     finalVal neg acc (d :: ds) = finalVal neg (if neg then acc * 10 - ((d - 48 : Nat) : Int) else acc * 10 + ((d - 48 : Nat) : Int)) ds := by
   unfold finalVal sgnVal
-  rw [valOf_cons]
+  rw [ti_valOf_cons]
   cases neg <;> simp only [List.length_cons, Bool.false_eq_true, if_false, if_true] <;> push_cast <;> ring
 
 /-- soundness of `try_from_ascii`: a returned value is the exact value and lies in the target's range -/
 theorem intFromAscii_sound (I : IntTy) (neg : Bool) (ds : List Nat) (acc v : Int) (hacc : I.contains acc = true)
     (h : intFromAscii I neg ds acc = some v) : v = finalVal neg acc ds ∧ I.contains v = true := by
   induction ds generalizing acc with
-  | nil => simp [intFromAscii] at h; subst h; simp [finalVal, sgnVal, valOf_nil, hacc]
+  | nil => simp [intFromAscii] at h; subst h; simp [finalVal, sgnVal, ti_valOf_nil, hacc]
   | cons d ds ih =>
     rw [finalVal_cons]
     simp only [intFromAscii] at h
@@ -78,7 +79,7 @@ theorem intFromAscii_complete (I : IntTy) (neg : Bool) (ds : List Nat) (acc : In
     (hfin : I.contains (finalVal neg acc ds) = true) :
     intFromAscii I neg ds acc = some (finalVal neg acc ds) := by
   induction ds generalizing acc with
-  | nil => simp [intFromAscii, finalVal, sgnVal, valOf_nil]
+  | nil => simp [intFromAscii, finalVal, sgnVal, ti_valOf_nil]
   | cons d ds ih =>
     rw [finalVal_cons] at hfin ⊢
     have hmin := IntTy.min_le_zero I
@@ -116,40 +117,36 @@ theorem intFromAscii_complete (I : IntTy) (neg : Bool) (ds : List Nat) (acc : In
 
 /-! ## Digit-string arithmetic -/
 
-theorem ofDigits_append (a b : List Nat) : ofDigits (a ++ b) = ofDigits a * 10 ^ b.length + ofDigits b := by
+theorem ti_ofDigits_append (a b : List Nat) : ofDigits (a ++ b) = ofDigits a * 10 ^ b.length + ofDigits b := by
   unfold ofDigits
   rw [List.foldl_append, ofDigits_foldl]
   rfl
 
-theorem valOf_append (a b : List Nat) : valOf (a ++ b) = valOf a * 10 ^ b.length + valOf b := by
-  simp [valOf, digitVals, ofDigits_append]
+theorem ti_valOf_append (a b : List Nat) : valOf (a ++ b) = valOf a * 10 ^ b.length + valOf b := by
+  simp [valOf, digitVals, ti_ofDigits_append]
 
 theorem AsciiDigits.tail {d : Nat} {ds : List Nat} (h : AsciiDigits (d :: ds)) : AsciiDigits ds :=
   fun x hx => h x (List.mem_cons_of_mem _ hx)
 theorem AsciiDigits.head {d : Nat} {ds : List Nat} (h : AsciiDigits (d :: ds)) : 48 ≤ d ∧ d ≤ 57 :=
   h d (List.mem_cons_self)
-theorem AsciiDigits.take {ds : List Nat} (h : AsciiDigits ds) (k : Nat) : AsciiDigits (ds.take k) :=
-  fun x hx => h x (List.mem_of_mem_take hx)
-theorem AsciiDigits.drop {ds : List Nat} (h : AsciiDigits ds) (k : Nat) : AsciiDigits (ds.drop k) :=
-  fun x hx => h x (List.mem_of_mem_drop hx)
 
-theorem valOf_lt (ds : List Nat) (h : AsciiDigits ds) : valOf ds < 10 ^ ds.length := by
+theorem ti_valOf_lt (ds : List Nat) (h : AsciiDigits ds) : valOf ds < 10 ^ ds.length := by
   induction ds with
-  | nil => simp [valOf_nil]
+  | nil => simp [ti_valOf_nil]
   | cons d ds ih =>
     have := ih h.tail
     have hd := h.head
-    rw [valOf_cons, List.length_cons, Nat.pow_succ]
+    rw [ti_valOf_cons, List.length_cons, Nat.pow_succ]
     have : (d - 48) * 10 ^ ds.length ≤ 9 * 10 ^ ds.length := Nat.mul_le_mul_right _ (by omega)
     omega
 
 theorem all_zero_iff (ds : List Nat) (h : AsciiDigits ds) : ds.all (· == 48) = true ↔ valOf ds = 0 := by
   induction ds with
-  | nil => simp [valOf_nil]
+  | nil => simp [ti_valOf_nil]
   | cons d ds ih =>
     have hd := h.head
     have hp : 0 < 10 ^ ds.length := Nat.pow_pos (by decide)
-    rw [valOf_cons, List.all_cons, Bool.and_eq_true, ih h.tail]
+    rw [ti_valOf_cons, List.all_cons, Bool.and_eq_true, ih h.tail]
     constructor
     · rintro ⟨h1, h2⟩
       have : d = 48 := by simpa using h1
@@ -329,7 +326,7 @@ theorem arm_neg_big (I : IntTy) (neg : Bool) (digits : List Nat) (e : Int) (he :
   have hk : (-e).toNat = e.natAbs := by omega
   rw [hk]
   have hlt : valOf digits < 10 ^ e.natAbs :=
-    Nat.lt_of_lt_of_le (valOf_lt digits hds) (Nat.pow_le_pow_right (by decide) hlen)
+    Nat.lt_of_lt_of_le (ti_valOf_lt digits hds) (Nat.pow_le_pow_right (by decide) hlen)
   rw [Nat.mod_eq_of_lt hlt, Nat.div_eq_of_lt hlt]
   by_cases h0 : valOf digits = 0
   · simp [h0, sgnVal_zero, contains_zero]
@@ -347,11 +344,11 @@ theorem arm_neg_small (I : IntTy) (neg : Bool) (digits : List Nat) (e : Int) (he
   simp only [exactInt, hns_of I neg hsign, Bool.false_eq_true, if_false, if_neg (show ¬ (0 : Int) ≤ e by omega), hk]
   rw [intFromAscii_eq I neg _ hsign]
   simp only [all_zero_iff _ (hds.drop _)]
-  have hsplit := valOf_append (digits.take (digits.length - e.natAbs)) (digits.drop (digits.length - e.natAbs))
+  have hsplit := ti_valOf_append (digits.take (digits.length - e.natAbs)) (digits.drop (digits.length - e.natAbs))
   rw [List.take_append_drop] at hsplit
   have hdl : (digits.drop (digits.length - e.natAbs)).length = e.natAbs := by
     rw [List.length_drop]; omega
-  have hlt := valOf_lt _ (hds.drop (digits.length - e.natAbs))
+  have hlt := ti_valOf_lt _ (hds.drop (digits.length - e.natAbs))
   rw [hdl] at hsplit hlt
   have hpos : 0 < 10 ^ e.natAbs := Nat.pow_pos (by decide)
   have hmod : valOf digits % 10 ^ e.natAbs = valOf (digits.drop (digits.length - e.natAbs)) := by
@@ -515,7 +512,7 @@ theorem toIntCore_nonfinite' (T : Ty) (I : IntTy) (neg : Bool) (digits : List Na
       cases hn : neg <;> cases hsg : I.signed <;> simp_all
     have hpos : 0 < valOf digits := by
       obtain ⟨d, rest, rfl, hd⟩ := hmsd
-      rw [valOf_cons]
+      rw [ti_valOf_cons]
       have : 0 < 10 ^ rest.length := Nat.pow_pos (by decide)
       have : 8 * 10 ^ rest.length ≤ (d - 48) * 10 ^ rest.length := Nat.mul_le_mul_right _ (by omega)
       omega
